@@ -1,10 +1,12 @@
 (* Entry point of the executable model: one case (a [val]) in, one
    observation (a [val]) out.  The same function is extracted to OCaml
    (vv_eval) and re-evaluated on samples inside Coq by vm_compute. *)
-From VV Require Import Base.Bits Base.Rt Base.Val Gen.GenConsts Gen.GenLayout Gen.GenFns Spec.ValidityDec Spec.BeSpec Spec.FeSpec Spec.SessSpec Model.Transport Model.BeServer Model.Frontend.
+From VV Require Import Base.Bits Base.Rt Base.Val Gen.GenConsts Gen.GenLayout Gen.GenFns Spec.ValidityDec Spec.BeSpec Spec.FeSpec Spec.SessSpec Spec.ProxySpec Model.Transport Model.BeServer Model.Frontend Model.Proxy.
 Open Scope string_scope.
 Open Scope list_scope.
 Open Scope N_scope.
+
+Definition vbool_tag (b : bool) (tag : string) : val := if b then VS "true" else VS ("false:" ++ tag).
 
 (* family "valid": [VS "valid"; VS type; VH bytes]  ->  "true"/"false" *)
 Definition run_valid (args : list val) : val :=
@@ -260,6 +262,150 @@ Definition run_sess (args : list val) : val :=
   | _ => verror "args"
   end.
 
+(* ---- family "tx": one frontend request written through a socket that accepts only part of each
+   write (C08 sender side).  args: [VN maxq; step; VL caps]  (cap 0 = EAGAIN, k = accept k bytes)
+   obs: VL [result; VH bytes on the wire; VL [VL [VN offset; VL fds] ...]] *)
+Fixpoint fd_offsets (t : list tx_event) (off : nat) : list val :=
+  match t with
+  | [] => []
+  | (b, f) :: r =>
+      (match f with [] => [] | _ => [VL [VN (N.of_nat off); VL (map VN f)]] end) ++ fd_offsets r (off + List.length b)
+  end.
+Definition run_tx (args : list val) : val :=
+  match args with
+  | [VN maxq; st; caps] =>
+      match parse_step st, val_NL caps with
+      | Some (name, a, bytes, fds, regions, _), Some cs =>
+          let out := fe_op (fe_init maxq) name a bytes fds regions [] in
+          match f_sent out with
+          | [] => VL [f_result out; VH ""; VL []]
+          | m :: _ =>
+              let oracle := map (fun c => if c =? 0 then TxRetry else TxAccept (N.to_nat c)) cs
+                            ++ [TxAccept (List.length (fst m))] in
+              let '(r, t) := send_all (fst m) (snd m) oracle 0 [] in
+              let res := match r with
+                         | TxOk n => if Nat.eqb n (List.length (fst m)) then f_result out else VS "PartialMessage"
+                         | TxErr => VS "SocketError"
+                         | TxFuel => VS "model-fuel"
+                         end in
+              VL [res; vbytes (flat_map fst t); VL (fd_offsets t 0)]
+          end
+      | _, _ => verror "args"
+      end
+  | _ => verror "args"
+  end.
+(* tx-spec: every byte of the specified encoding exactly once and in order; descriptors with the first byte only *)
+Definition run_tx_spec (args : list val) : val :=
+  match args with
+  | [VN maxq; st; _; VL [res; VH wire; VL fdpos]] =>
+      match parse_fstep st with
+      | Some (name, a, data, fds, regions, _) =>
+          match spec_op maxq false name a data fds regions with
+          | Some sp =>
+              match os_body sp with
+              | Some body =>
+                  let expect := le32 (os_code sp) ++ le32 1 ++ le32 (N.of_nat (List.length body)) ++ body in
+                  let fd_ok := match os_fds sp, fdpos with
+                               | [], [] => true
+                               | f, [VL [VN 0; VL got]] => match all_some (map val_N got) with Some g => list_eqb g f | None => false end
+                               | _, _ => false
+                               end in
+                  if is_ok res then vbool_tag (list_eqb (hex_bytes wire) expect && fd_ok) "C08"
+                  else VS "n/a"
+              | None => VS "n/a"
+              end
+          | None => VS "n/a"
+          end
+      | None => verror "step"
+      end
+  | _ => verror "args"
+  end.
+
+(* ---- families on the backend-initiated channel ---- *)
+Definition parse_hres (v : val) : hres :=
+  match v with
+  | VL [VN k; VN x] => if k =? 0 then HOk x else if k =? 1 then HErrno x else HErrOther
+  | _ => HOk 0
+  end.
+Definition ptx_val (t : ptx) : val := VL [vbytes (fst t); VL (map VN (snd t))].
+Definition stops_f (r : val) : bool :=
+  match r with
+  | VS x => String.eqb x "Disconnected" || String.eqb x "PartialMessage" || String.eqb x "SocketBroken" || String.eqb x "SocketError"
+  | _ => false
+  end.
+(* fsrv: [VN reply_ack; VL hres-script; VL msgs] -> VL [VL results; VL calls; VL sent; VN leaked] *)
+Fixpoint fsrv_loop (fuel : nat) (ra : bool) (hs : list val) (q : stream) (results calls sent : list val)
+  : list val * list val * list val :=
+  match fuel with
+  | O => (results ++ [VS "model-fuel"], calls, sent)
+  | S f =>
+      let '(out, q') := fsrv_handle ra (parse_hres (hd (VL [VN 0; VN 0]) hs)) q in
+      let results' := results ++ [fo_result out] in
+      let calls' := calls ++ fo_calls out in
+      let sent' := sent ++ map ptx_val (fo_sent out) in
+      if stops_f (fo_result out) then (results', calls', sent')
+      else fsrv_loop f ra (tl hs) q' results' calls' sent'
+  end.
+Definition run_fsrv (args : list val) : val :=
+  match args with
+  | [VN ra; VL hs; VL msgs] =>
+      match all_some (map parse_seg msgs) with
+      | Some q =>
+          let '(r, c, s) := fsrv_loop (List.length q + stream_len q + 2) (ra =? 1) hs q [] [] [] in
+          VL [VL r; VL c; VL s; VN 0]
+      | None => verror "args"
+      end
+  | _ => verror "args"
+  end.
+(* proxy: [VL [VN ra; VN shared; VN shmem]; VL steps]; step = VL [VS op; nums; VH uuid; fds; VL script] *)
+Fixpoint proxy_steps (s : px_state) (steps : list val) : list val :=
+  match steps with
+  | [] => []
+  | VL [VS name; nums; VH uuid; fds; VL script] :: rest =>
+      match val_NL nums, val_NL fds, all_some (map parse_seg script) with
+      | Some a, Some f, Some q =>
+          let out := px_op s name a (hex_bytes uuid) f q in
+          VL [po_result out; VL (map ptx_val (po_sent out))] :: proxy_steps s rest
+      | _, _, _ => [verror "step"]
+      end
+  | _ => [verror "step"]
+  end.
+Definition run_proxy (args : list val) : val :=
+  match args with
+  | [VL [VN ra; VN sh; VN sm]; VL steps] =>
+      VL (proxy_steps {| px_reply_ack := ra =? 1; px_shared := sh =? 1; px_shmem := sm =? 1 |} steps)
+  | _ => verror "args"
+  end.
+(* psess: the proxy model composed with the server model *)
+Fixpoint psess_steps (s : px_state) (steps : list val) : list val :=
+  match steps with
+  | [] => []
+  | VL [VS name; nums; VH uuid; fds; h] :: rest =>
+      match val_NL nums, val_NL fds with
+      | Some a, Some f =>
+          let probe := px_op s name a (hex_bytes uuid) f [] in
+          match po_sent probe with
+          | [] => VL [po_result probe; VL []] :: psess_steps s rest
+          | m :: _ =>
+              let '(out, _) := fsrv_handle (px_reply_ack s) (parse_hres h) [{| seg_bytes := fst m; seg_fds := snd m |}] in
+              let replies := map (fun t => {| seg_bytes := fst t; seg_fds := snd t |}) (fo_sent out) in
+              let fin := px_op s name a (hex_bytes uuid) f replies in
+              let served := negb (stops_f (fo_result out)) in
+              (* the server keeps serving after a refused request: a proxy that awaits an acknowledgement then waits *)
+              let res := if px_reply_ack s && match replies with [] => true | _ => false end then VS "blocked" else po_result fin in
+              VL [res; VL (fo_calls out)] :: (if val_eqb res (VS "blocked") then [] else psess_steps s rest)
+          end
+      | _, _ => [verror "step"]
+      end
+  | _ => [verror "step"]
+  end.
+Definition run_psess (args : list val) : val :=
+  match args with
+  | [VL [VN ra; VN sh; VN sm]; VL steps] =>
+      VL (psess_steps {| px_reply_ack := ra =? 1; px_shared := sh =? 1; px_shmem := sm =? 1 |} steps)
+  | _ => verror "args"
+  end.
+
 Definition run (c : val) : val :=
   match c with
   | VL (VS fam :: args) =>
@@ -270,6 +416,14 @@ Definition run (c : val) : val :=
       else if String.eqb fam "seg" then run_seg args
       else if String.eqb fam "fe" then run_fe args
       else if String.eqb fam "sess" then run_sess args
+      else if String.eqb fam "tx" then run_tx args
+      else if String.eqb fam "fsrv" then run_fsrv args
+      else if String.eqb fam "fsrv-spec" then fsrv_spec args
+      else if String.eqb fam "proxy" then run_proxy args
+      else if String.eqb fam "proxy-spec" then proxy_spec args
+      else if String.eqb fam "psess" then run_psess args
+      else if String.eqb fam "psess-spec" then psess_spec args
+      else if String.eqb fam "tx-spec" then run_tx_spec args
       else if String.eqb fam "sess-spec" then sess_spec args
       else if String.eqb fam "fe-spec" then fe_spec args
       else if String.eqb fam "iovs" then run_iovs args
